@@ -209,8 +209,15 @@ impl CtcDecoder {
     /// <https://gist.github.com/awni/56369a90d03953e370f3964c826ed4b0>. See also
     /// "Inference" section of <https://distill.pub/2017/ctc/> for an explanation
     /// of the algorithm.
+    ///
+    /// If no label sequence has a non-zero probability, an empty hypothesis with
+    /// a score of negative infinity is returned.
     pub fn decode_beam(&self, prob_seq: NdTensorView<f32, 2>, beam_size: u32) -> CtcHypothesis {
-        CtcHypothesis::from_beam_state(self.decode_beam_impl(prob_seq, beam_size).remove(0))
+        self.decode_beam_impl(prob_seq, beam_size)
+            .into_iter()
+            .next()
+            .map(CtcHypothesis::from_beam_state)
+            .unwrap_or_else(|| CtcHypothesis::new(Vec::new(), f32::NEG_INFINITY))
     }
 
     fn decode_beam_impl(&self, prob_seq: NdTensorView<f32, 2>, beam_size: u32) -> Vec<BeamState> {
@@ -331,6 +338,15 @@ impl CtcDecoder {
                         next_prob_blank[[bi, label]],
                         next_prob_no_blank[[bi, label]],
                     ]);
+
+                    // Skip extensions with zero probability. This includes
+                    // extensions whose probability was redirected to another
+                    // beam state by `merges`. Keeping those would add a
+                    // second state with the same prefix to the beam.
+                    if prob_sum == f32::NEG_INFINITY {
+                        continue;
+                    }
+
                     if topk_extensions.len() < beam_size.as_usize()
                         || prob_sum
                             > topk_extensions
@@ -480,6 +496,39 @@ mod tests {
             decoder.decode_beam(input.view(), 10).to_string(ALPHABET),
             "fobar"
         );
+    }
+
+    #[test]
+    fn test_decode_beam_wide_beam() {
+        let decoder = CtcDecoder::new();
+
+        // Uniform distribution over a blank and two labels. There are only
+        // five label sequences with a non-zero probability, which is fewer
+        // than the beam size.
+        let mut input = NdTensor::<f32, 2>::full([2, 3], 0.25);
+        input.apply(|x| x.ln());
+
+        let hyps = decoder.decode_beam_nbest(input.view(), 20, 20);
+        let mut labels: Vec<Vec<u32>> = hyps
+            .iter()
+            .map(|hyp| hyp.steps().iter().map(|s| s.label).collect())
+            .collect();
+        assert_eq!(labels[..2], [vec![1], vec![2]]);
+        labels.sort();
+        assert_eq!(
+            labels,
+            [vec![], vec![1], vec![1, 2], vec![2], vec![2, 1]],
+            "hypotheses should be distinct"
+        );
+        assert!(hyps.iter().all(|hyp| hyp.score().is_finite()));
+
+        // If every label sequence has zero probability, no hypotheses are
+        // returned.
+        let input = NdTensor::<f32, 2>::full([2, 3], f32::NEG_INFINITY);
+        assert!(decoder.decode_beam_nbest(input.view(), 20, 20).is_empty());
+        let best = decoder.decode_beam(input.view(), 20);
+        assert!(best.steps().is_empty());
+        assert_eq!(best.score(), f32::NEG_INFINITY);
     }
 
     #[test]
